@@ -1040,6 +1040,110 @@ def extract_switch(bdir):
     return "\n".join(out)
 
 
+# ---------------------------------------------------------------------------------------------------------------
+# write_buffer() / read_buffer() (lib/lpc/buffer.c): the start / length guards in front of the memcpy, translated as a
+# small statement sequence: `if`s whose branches assign `start` / `len` or `return 0`, up to the copy.
+
+class _BufTr:
+    def __init__(self, fname, params, stop):
+        self.fname, self.stop = fname, stop
+        self.tr = Tr()
+        for p, t in params:
+            self.tr.param(p, t)
+        self.nparams = len(params)
+
+    def flat(self, n):
+        if n.get("kind") == "CompoundStmt":
+            out = []
+            for c in n.get("inner", []):
+                out += self.flat(c)
+            return out
+        return [n]
+
+    def seq(self, stmts):
+        if not stmts:
+            raise TieBroken("buffer:" + self.fname, "fell off the end before the copy")
+        n, rest = stmts[0], stmts[1:]
+        k = n.get("kind")
+        if k in ("DeclStmt", "NullStmt"):
+            return self.seq(rest)
+        if k == "ReturnStmt":
+            r = strip(n["inner"][0]) if n.get("inner") else {}
+            while r.get("kind") in ("ImplicitCastExpr", "CStyleCastExpr", "ParenExpr"):
+                r = strip(r["inner"][0])
+            v = const_eval(r) if r else None
+            if v == 0:
+                return "none"
+            raise TieBroken("buffer:" + self.fname, "return of something else than 0 before the copy")
+        if k == "IfStmt":
+            inner = n["inner"]
+            cond = self.tr.bool_expr(inner[0])
+            th = self.seq(self.flat(inner[1]) + rest)
+            el = self.seq((self.flat(inner[2]) if len(inner) > 2 else []) + rest)
+            return "(if %s then %s else %s)" % (cond, th, el)
+        if k in ("BinaryOperator", "CompoundAssignOperator") and n.get("opcode") in ("=", "+=", "-="):
+            lhs = strip(n["inner"][0])
+            if lhs.get("kind") == "DeclRefExpr":
+                name = lhs["referencedDecl"]["name"]
+                rhs_is_field = strip(n["inner"][1]).get("kind") == "MemberExpr" or (
+                    strip(n["inner"][1]).get("kind") == "ImplicitCastExpr" and strip(strip(n["inner"][1])["inner"][0]).get("kind") == "MemberExpr")
+                if name == "size" and n.get("opcode") == "=" and rhs_is_field:
+                    return self.seq(rest)                      # size = buf->size : `size` is the parameter
+                if n.get("opcode") == "=":
+                    val = self.tr.wrap(ctype(lhs), self.tr.int_expr(n["inner"][1]))
+                else:
+                    val = self.tr.wrap(ctype(n), "%s %s %s" % (self.tr.param(name, ctype(lhs)), n["opcode"][0], self.tr.int_expr(n["inner"][1])))
+                lname = self.tr.param(name, ctype(lhs))
+                return "(let %s := %s; %s)" % (lname, val, self.seq(rest))
+        if self.stop(n):
+            return self.result(n)
+        raise TieBroken("buffer:" + self.fname, "statement outside the grammar: %s" % k)
+
+
+def extract_buffer_guards(bdir):
+    out = []
+    # write_buffer: up to memcpy (buf->item + start, str, theLength)
+    fn = ast_function(bdir, "lib/lpc/buffer.c", "write_buffer")
+    body = [c for c in fn["inner"] if c.get("kind") == "CompoundStmt"][0]
+    bt = _BufTr("write_buffer", [("size", "unsigned long"), ("start", "long"), ("theLength", "unsigned long")],
+                lambda n: n.get("kind") == "CallExpr" and callee_name(n) == "memcpy")
+
+    def wres(n):
+        dst = strip(n["inner"][1])
+        while dst.get("kind") in ("ImplicitCastExpr", "CStyleCastExpr"):
+            dst = strip(dst["inner"][0])
+        if not (dst.get("kind") == "BinaryOperator" and dst.get("opcode") == "+" and "item" in c_text(dst["inner"][0])):
+            raise TieBroken("buffer:write_buffer", "memcpy destination is not buf->item + offset: %s" % c_text(dst))
+        return "some (%s, %s)" % (bt.tr.int_expr(dst["inner"][1]), bt.tr.int_expr(n["inner"][3]))
+    bt.result = wres
+    try:
+        ex = bt.seq(bt.flat(body))
+    except OutOfGrammar as e:
+        raise TieBroken("buffer:write_buffer", "left the grammar: %s" % e)
+    if [p[0] for p in bt.tr.params] != ["size", "start", "theLength"]:
+        raise TieBroken("buffer:write_buffer", "unexpected operands %s" % [p[1] for p in bt.tr.params])
+    out.append(lean_def("writeBufferRange", bt.tr, ex, "write_buffer(): (offset, length) of `memcpy (buf->item + start, str, theLength)`, none = `return 0`", "Option (Int × Int)"))
+    # read_buffer: up to the scan loop; the copy moves at most `len` bytes from b->item + start
+    fn = ast_function(bdir, "lib/lpc/buffer.c", "read_buffer")
+    body = [c for c in fn["inner"] if c.get("kind") == "CompoundStmt"][0]
+    rt = _BufTr("read_buffer", [("size", "unsigned long"), ("start", "long"), ("len", "unsigned long")], lambda n: n.get("kind") == "ForStmt")
+
+    def rres(n):
+        cond = n["inner"][2]
+        if not subtree_has(cond, lambda m: m.get("kind") == "BinaryOperator" and m.get("opcode") == "<" and _is_ref(m["inner"][1], "len")):
+            raise TieBroken("buffer:read_buffer", "the scan loop is not bounded by `.. < len`: %s" % c_text(cond))
+        return "some (%s, %s)" % (rt.tr.param("start", "long"), rt.tr.param("len", "unsigned long"))
+    rt.result = rres
+    try:
+        ex = rt.seq(rt.flat(body))
+    except OutOfGrammar as e:
+        raise TieBroken("buffer:read_buffer", "left the grammar: %s" % e)
+    if [p[0] for p in rt.tr.params] != ["size", "start", "len"]:
+        raise TieBroken("buffer:read_buffer", "unexpected operands %s" % [p[1] for p in rt.tr.params])
+    out.append(lean_def("readBufferRange", rt.tr, ex, "read_buffer(): (offset, maximal length) of the scan / copy from `b->item + start`, none = `return 0`", "Option (Int × Int)"))
+    return "\n".join(out)
+
+
 NUL_MSG = "*Strings cannot contain 0 bytes."
 
 
@@ -1687,6 +1791,7 @@ def generate_all(bdir, tvals):
     def p_search():
         parts.append(extract_search_indices(bdir))
         parts.append(extract_switch(bdir))
+        parts.append(extract_buffer_guards(bdir))
 
     def p_funptr():
         t, d = extract_funptr_dispatch(bdir)
